@@ -251,6 +251,10 @@ def gen_buggify(seed, opts=None):
         for sc in (ia.get('resp'), ia.get('pub')):
             if sc and sc.get('src') == 'manual' and rng.random() < 0.15:
                 sc[rng.choice(['bug_subscribe', 'bug_request'])] = True
+        # subscribers whose callbacks fail (requester side of streams and channels, responder side of channels)
+        for sub in (ia.get('sub'), (ia.get('resp') or {}).get('sub')):
+            if sub is not None and ia['kind'] in ('stream', 'channel') and rng.random() < 0.12:
+                sub['raise_in'] = {'cb': _pick(rng, [(3, 'on_next'), (1, 'on_complete'), (1, 'on_error')]), 'at': rng.randint(1, 3)}
     # probes after the storm, one in each direction
     last = max([ia['at'] for ia in plan['interactions']] + [0]) + 0.5
     n = len(plan['interactions'])
@@ -275,6 +279,9 @@ def oracle_c12_buggify(an):
             bugged.add(iid)
         for sc in (ia.get('resp'), ia.get('pub')):
             if sc and (sc.get('bug_subscribe') or sc.get('bug_request')):
+                bugged.add(iid)
+        for sub in (ia.get('sub'), (ia.get('resp') or {}).get('sub')):
+            if sub and sub.get('raise_in'):
                 bugged.add(iid)
     probe_bugged = {iid for iid, ia in an.ia.items() if ia.get('probe') and 'request_response' in bug[an.responder(iid)]}
     # interactions that do not touch failing application code behave per C01
